@@ -78,14 +78,16 @@ _P = 'src/cppparser/'
 _TS_TUS = _IMN + ['src/interrogate/typeManager.cxx'] + [_P + x for x in (
     'cppSimpleType.cxx', 'cppConstType.cxx', 'cppPointerType.cxx', 'cppReferenceType.cxx', 'cppTypedefType.cxx', 'cppEnumType.cxx',
     'cppStructType.cxx', 'cppExtensionType.cxx', 'cppScope.cxx', 'cppIdentifier.cxx', 'cppNameComponent.cxx', 'cppType.cxx',
-    'cppDeclaration.cxx', 'cppAttributeList.cxx', 'cppFile.cxx')] + ['src/dtoolutil/filename.cxx']
+    'cppDeclaration.cxx', 'cppAttributeList.cxx', 'cppFile.cxx',
+    'cppParser.cxx')] + ['src/dtoolutil/filename.cxx']      # cppParser.cxx only because parse_type is cut (native replay weakens cut symbols in listed TUs)
 _TS_CUT = ['_ZN11TypeManager12resolve_typeEP7CPPTypeP8CPPScope', '_ZN9CPPParser10parse_typeERKNSt7__cxx1112basic_stringIcSt11char_traitsIcESaIcEEE',
            '_ZNK7CPPType14get_local_nameB5cxx11EP8CPPScope',
            '_ZNK16CPPExtensionType14get_local_nameB5cxx11EP8CPPScope']
 _TS_SKIP = [x.split('/')[-1] for x in _TS_TUS]
-_TS_UNIVERSE = ('25 real type objects: bool, const bool, typedef of bool, int, const int, unsigned, long, short, long long, unsigned long long, '
-                'unscoped enum, enum class, double, const double, float, char, const char *, string class by value and by const reference, '
-                'Cls *, const Cls &, Cls by value, Der * (Der derives from Cls), nullptr_t, int *')
+_TS_UNIVERSE = ('real type objects: a fundamental type (CPPSimpleType with SYMBOLIC content: bool, char, signed/unsigned char, wchar_t, char8/16/32_t, '
+                '[unsigned] short/int/long/long long, float, double, long double, nullptr_t) plain, const-qualified and behind a typedef, in two '
+                'independent families (one per overload); concrete compound types: unscoped enum, enum class, const char *, string class by value '
+                'and by const reference, Cls *, const Cls &, Cls by value, Der * (Der derives from Cls), int *')
 _TS_ORACLE = ('independent of the ranks: per type the Python argument categories its generated extraction accepts (A) and the categories it is '
               'the C++ target of (H); whenever a category of H(a) is accepted by b only by conversion (bool: everything; double/float: int; '
               'const char *: None) or H(a) is a strict non-empty subset of H(b) (derived before base), a must be tried before b; in '
@@ -94,26 +96,46 @@ HARNESSES += [
  {'id': 'c02_type_rank', 'property': 'C02', 'src': 'c02_typesort.cxx', 'entry': 'harness_c02_type_rank', 'tus': _TS_TUS,
   'cut': _TS_CUT, 'skip_ctors': _TS_SKIP, 'cbmc_flags': _FS,
   'desc': 'get_type_sort through the real TypeManager predicates ranks every parameter type consistently with what its Python-side extraction accepts',
-  'domain': _TS_UNIVERSE + ' (classified by a concrete loop); the PAIR of types compared is symbolic',
+  'domain': _TS_UNIVERSE + ' (16 classifications by a concrete loop); the PAIR of universe entries compared is symbolic',
   'oracle': _TS_ORACLE + '; bool variants rank alike',
   'bounds': {'quick': {'unwind': 30, 'cap': 300}}},
- {'id': 'c02_dispatch_pairs', 'property': 'C02', 'src': 'c02_typesort.cxx', 'entry': 'harness_c02_dispatch_order', 'tus': _TS_TUS,
+ {'id': 'c02_type_rank_cref', 'property': 'C02', 'src': 'c02_typesort.cxx', 'entry': 'harness_c02_type_rank', 'tus': _TS_TUS,
   'cut': _TS_CUT, 'skip_ctors': _TS_SKIP, 'cbmc_flags': _FS + ['--no-pointer-check'],
-  'desc': 'order in which an overload set of two one-parameter overloads is tried: real RemapCompareLess + std::sort on real parameter types',
-  'domain': _TS_UNIVERSE + '; every ordered pair (both input orders reach std::sort; concrete loops), const-ness of the methods symbolic',
-  'oracle': _TS_ORACLE,
-  'bounds': {'quick': {'defs': {'NOV': 2, 'NPAR': 1, 'A_FROM': 0, 'A_TO': 1}, 'unwind': 30, 'unwindset': {'ll_ctlz.0': 66}, 'cap': 300}}},
+  'desc': 'c02_type_rank with the fundamental type also passed as "const T &" (FAILS on the unchanged tree: get_type_sort gives "const int &" / "const double &" / "const bool &" rank 0, '
+          'so f(const int &) is tried after f(double) and after f(bool); known finding)',
+  'domain': _TS_UNIVERSE + ' plus const T & of the symbolic fundamental type; the pair of types compared is symbolic; --no-pointer-check',
+  'oracle': _TS_ORACLE + '; bool variants rank alike; every type is classified (rank > 0)',
+  'bounds': {'quick': {'defs': {'WITH_CREF': 1}, 'unwind': 30, 'cap': 300}}},
+ {'id': 'c02_dispatch_sym', 'property': 'C02', 'src': 'c02_typesort.cxx', 'entry': 'harness_c02_dispatch_order', 'tus': _TS_TUS,
+  'cut': _TS_CUT, 'skip_ctors': _TS_SKIP, 'cbmc_flags': _FS + ['--no-pointer-check'],
+  'desc': 'which of two two-parameter overloads (same first parameter type) the dispatch tries first: real RemapCompareLess -> get_type_sort on real parameter types, one of them a fundamental type with symbolic content',
+  'domain': _TS_UNIVERSE + '; pairs (concrete loop): plain fundamental type against each of the 13 entries, const against typedef and typedef against const (content of both symbolic); '
+            'the comparator is called directly in both directions (std::sort on a symbolic comparator runs off the array: see the harness source); --no-pointer-check (long run; c02_type_rank checks the same classification code with pointer checks)',
+  'oracle': _TS_ORACLE + '; asymmetric',
+  'bounds': {'quick': {'defs': {'NPAR': 2, 'PART': 1}, 'unwind': 30, 'cap': 400}}},
+ {'id': 'c02_dispatch_sort', 'property': 'C02', 'src': 'c02_typesort.cxx', 'entry': 'harness_c02_dispatch_order', 'tus': _TS_TUS,
+  'cut': _TS_CUT, 'skip_ctors': _TS_SKIP, 'cbmc_flags': _FS + ['--no-pointer-check'],
+  'desc': 'order in which an overload set of 10 two-parameter overloads (same first parameter type) is tried: std::sort with the real RemapCompareLess, as write_function_forset does',
+  'domain': 'concrete scenario: bool, int *, double, int, enum class, const char *, const string &, Cls *, const Cls &, Der * '
+            'as second parameter, nullptr_t as first; input in two orders (as listed, reversed); nothing symbolic (a symbolic comparator answer sends std::sort off the array); --no-pointer-check',
+  'oracle': 'every overload kept; ' + _TS_ORACLE,
+  'bounds': {'quick': {'defs': {'NPAR': 2, 'PART': 2}, 'unwind': 130, 'unwindset': {'ll_ctlz.0': 66}, 'cap': 400}}},
 ]
 
 PROPERTY_INFO = {'C02': {'level': 'model_checking',
          'explanation': 'bounded symbolic execution (CBMC) of generator-side kernels of the -python-native back end (Tier A of the plan): '
-                        'Python names of classes/methods/operators, the overload ordering comparator, default-argument collapsing; '
+                        'Python names of classes/methods/operators, the overload ordering comparator, the ranking of real parameter types (get_type_sort through '
+                        'the real TypeManager predicates) against what each generated extraction accepts, default-argument collapsing; '
                         'container-shaped inputs (overload tables, parameter counts) are enumerated by concrete loops inside the query, scalars are symbolic',
          'outside': 'Tier B (the generated dispatch code under a CPython model) and everything at run time: argument conversion, ownership, '
-                    'reference counts, exceptions; write_function_instance and the other emitters; get_type_sort on real CPPTypes (replaced by '
-                    'an uninterpreted table); method names on a symbolic domain (only examples, keywords and operators: the rename-dictionary '
+                    'reference counts, exceptions; write_function_instance and the other emitters (what each extraction accepts is reference '
+                    'data of the c02_type_rank / c02_dispatch_* harnesses); parameter types outside their universe (PyObject *, Py_buffer *, wstring, arrays, '
+                    'templates, unresolved types; pointer/reference shapes of fundamental types other than const char *, int * and const T &); method names on a symbolic domain (only examples, keywords and operators: the rename-dictionary '
                     'loop on a symbolic name does not finish), "print" -> "Cprint", "operator ," and camelCase aliases of operators (a growing '
                     'std::string = literal is undecidable for the engine); names whose components consist of underscores only',
-         'assumptions': ['the rename dictionary / keyword list expected by the harness are the documented ones (copied into the harness as reference data)']}}
+         'assumptions': ['the rename dictionary / keyword list expected by the harness are the documented ones (copied into the harness as reference data)',
+                         'the Python argument categories each parameter type accepts / is the C++ target of (tables in harness/c02_typesort.cxx) are those of '
+                         'the extraction code write_function_instance emits (PyObject_IsTrue, PyLong_Check, PyNumber_Check, format units z s# i l k L K d f, '
+                         'DTOOL_Call_GetPointerThisClass, Dtool_EnumValue_AsLong); TypeManager::resolve_type is the identity on the resolved types used']}}
 
 NOT_APPLICABLE = {}
